@@ -18,7 +18,7 @@ CHECKS = {
          "Thread counts 1..8 (construction and builder, smaller/equal/larger), cutoff firing at generated poll indices, random/PCT/systematic schedules; the scheduler state decides: deadlock = no runnable worker while one is parked, worker exit by panic, 'complete' while nodes are open or in progress, step bound." + EXPL,
          TRUST + "liveness is bounded: 'returns within the step bound under every explored schedule' plus structural deadlock detection.", "§6, §7 C04"),
  "C05": ("fault-point enumeration by generated-input search: every cutoff poll index of each generated sequential case; (poll index x schedule) for the parallel solver; bounds/solution oracle from h*",
-         "Sequential: for each generated (instance, configuration) the cutoff fires at EVERY poll index 1..K+1 (complete per case); parallel: generated poll index x owned schedule (random/PCT/systematic). Oracle: lb <= optimum <= ub, solution replays to lb, is_exact only with the optimum." + EXPL,
+         "Sequential: for each generated (instance, configuration) the cutoff fires at EVERY poll index 1..K+1 (complete per case); parallel: generated poll index x owned schedule (random/PCT/systematic); plus large searches (10-16 item knapsacks, 11-15 item set packing; sequential and 2-4 real threads) cut at a generated sample of poll indices. Oracle: lb <= optimum <= ub, solution replays to lb, is_exact only with the optimum." + EXPL,
          TRUST + "cooperative scheduler for the parallel part.", "§7 C05"),
  "C06": ("property-based differential testing of directly compiled relaxed diagrams against h* of generated sub-problems, incl. compilation histories on the same object",
          "Relaxed compilations of generated reachable sub-problems (width, incumbent below/at/above the sub-optimum, LEL/FRONTIER/Pooled, rough bounds, dominance, 0-3 prior compilations incl. interrupted ones) with fresh cache/dominance store; bound validity, truthful exactness, replay of the best exact solution." + EXPL,
